@@ -25,7 +25,9 @@ EXTENDS Integers, Sequences, SequencesExt, FiniteSets, TLC, Json
 CONSTANTS NB,        \* number of blocks ("grid" family)
           Pads,      \* paddings (code units) a block may have ("grid"); the window of the big padding ("cascade")
           Scale,     \* 1: operands in bytes (<= 3.9), 2: in code units (3.10)
-          Family,    \* "grid": every graph over NB blocks;  "cascade": chains of dependent growths (below)
+          Family,    \* "grid": every graph over NB blocks;  "cascade": chains of dependent growths;
+                     \* "freeshift": a free-variable operand that crosses a width boundary when the number of
+                     \* cell variables is added to it AFTER the loop (Pads = the numbers of cell variables)
           MaxK,      \* "cascade": number of chained jumps, 1..MaxK
           Emit
 
@@ -50,12 +52,28 @@ BlockInstrs(b) == (IF pad[b] > 0 THEN <<PadIns(pad[b])>> ELSE <<>>)
 \* every block needs at least one instruction
 NonEmpty == \A b \in DOMAIN pad : pad[b] > 0 \/ jmp[b][1] # "none"
 
+\* "freeshift": block 0 = ncell LOAD_CLOSUREs (one per cell variable), a load of free variable 0, a
+\* jump to block 1; block 1 = one unit.  pad[0] holds ncell, pad[1] = 1.
+CellIns(i) == <<"LOAD_CLOSURE", "C", 1000 + i, -1, -1, 1, <<>>>>
+FreeIns == <<"LOAD_DEREF", "F", 2000, -1, -1, 1, <<>>>>
+NCells == IF Family = "freeshift" THEN pad[0] ELSE 0
+
 Data ==
+    IF Family = "freeshift"
+    THEN [instrs |-> [i \in 1..pad[0] |-> CellIns(i - 1)] \o <<FreeIns, JumpIns(<<"abs", 1>>), PadIns(1)>>,
+          block_starts |-> <<0, pad[0] + 2>>]
+    ELSE
     LET per == [b \in 1..NBlk |-> BlockInstrs(b - 1)]
         starts == [b \in 1..NBlk |-> FoldLeft(LAMBDA a, x: a + Len(x), 0, SubSeq(per, 1, b - 1))]
     IN [instrs |-> EN!Flatten(per), block_starts |-> starts]
 
-InitArgs == [i \in DOMAIN Data.instrs |-> IF Data.instrs[i][2] = "J" THEN 1 ELSE 0]
+\* operands when the loop starts: a jump is 1, a cell variable its index, free variable 0 is
+\* 0 + the number of cell variables (the shift happens before the loop)
+InitArgs == [i \in DOMAIN Data.instrs |->
+               CASE Data.instrs[i][2] = "J" -> 1
+                 [] Data.instrs[i][2] = "C" -> Data.instrs[i][3] - 1000
+                 [] Data.instrs[i][2] = "F" -> NCells
+                 [] OTHER -> 0]
 
 \* "cascade": K absolute jumps at the very start (to the K one-unit blocks at the end, farthest
 \* first), then one block of P plain units.  When P puts the last target just beyond what one
@@ -69,7 +87,9 @@ Init ==
        THEN /\ pad \in [0..(NB - 1) -> Pads]
             /\ jmp \in [0..(NB - 1) -> UNION {JumpChoices(b) : b \in 0..(NB - 1)}]
             /\ \A b \in 0..(NB - 1) : jmp[b] \in JumpChoices(b)
-       ELSE \E K \in 1..MaxK, P \in Pads : pad = CascadePad(K, P) /\ jmp = CascadeJmp(K)
+       ELSE IF Family = "cascade"
+       THEN \E K \in 1..MaxK, P \in Pads : pad = CascadePad(K, P) /\ jmp = CascadeJmp(K)
+       ELSE \E n \in Pads : pad = (0 :> n) @@ (1 :> 1) /\ jmp = (0 :> <<"abs", 1>>) @@ (1 :> <<"none", 0>>)
     /\ NonEmpty
     /\ args = InitArgs
     /\ pass = 0
@@ -109,6 +129,21 @@ JumpsLand ==
                     dest == IF d.instrs[i][4] = 1 THEN offs[i + 1] * mult + args[i] ELSE args[i]
                 IN /\ dest = tgtUnit * mult
                    /\ EN!InstrSize(args[i]) = Sizes(args)[i]
+
+\* The code that is finally assembled: free-variable operands get the number of cell variables
+\* added.  In the library this happens BEFORE the loop since "fix:" commit (C03); it used to happen
+\* after it, with the widths the loop had settled on.
+\* the jumps must land in THAT layout.
+FinalArgs == args
+JumpsLandFinal ==
+    (~changed) =>
+        LET d == Data
+            offs == EN!Offsets(d, FinalArgs)
+            mult == IF Scale = 2 THEN 1 ELSE 2
+        IN \A i \in DOMAIN d.instrs :
+             d.instrs[i][2] = "J" =>
+                (IF d.instrs[i][4] = 1 THEN offs[i + 1] * mult + args[i] ELSE args[i])
+                = offs[d.block_starts[d.instrs[i][3] + 1] + 1] * mult
 
 \* replay output: one line per graph, with the number of passes and the final operands
 EmitDone ==
